@@ -53,5 +53,16 @@ CLAIMED["C12"] = dict(
     note="Trusted: pickle.load is _pickle.load in CPython (checked in Lib/pickle.py's source); the operation alphabet of the property (enter = `with fickling.check_safety():`).",
 )
 
+CLAIMED["C11"] = dict(
+    technique="points-to over two abstract locations per nested dict (copy-depth of each alias x write-depth of each store) plus an effect scan for writes to module globals, class attributes and shared defaults",
+    level="Decides the whole property as an ownership rule: nothing in the package can write the built-in ML_ALLOWLIST or its inner dicts (each alias is classified by the depth of the copy that made it and by its lifetime), no function of hook.py/ml.py accumulates additions in a module global, class attribute or default argument, and the hooks an activation installs are its own closures reading its own also_allow.",
+    note="Trusted: the copy idioms table (dict(), .copy(), {**x}, deepcopy, dict-comprehension with copied values); name-based alias tracking within fickling/ (a reference smuggled through an unrelated container would not be seen).",
+)
+CLAIMED["C07"] = dict(
+    technique="CFG dominance in find_class (resolver dominated by both allowlist tests on the unmodified parameters), structural check of the installed closures, completeness of the rebound entry-point set against the pickle module's API with torch's source parsed for the attributes its load path uses",
+    level="Decides that find_class resolves only what both allowlist tests admitted, that the installed load/loads hooks always go through that unpickler with the activation's additions and nothing else sees the data, and whether every public entry point of pickle/_pickle (load, loads, Unpickler) is mediated - the last is a genuine, recorded finding on this tree (pickle.Unpickler is not, and torch's nested loaders use it). What third-party callables do at run time is not decided.",
+    note="Trusted: _pickle.Unpickler dispatches global lookups to the overridden find_class (documented API); torch/serialization.py parsed from the installed package when present.",
+)
+
 _NOT_YET = "checker not built yet in this session (planned per DESIGN.md section 3); nothing is claimed until it exists"
 NOT_APPLICABLE = {p: _NOT_YET for p in [f"C{i:02d}" for i in range(1, 20)]}
